@@ -47,6 +47,41 @@ def generate(ctx):
         cases.append(make_case(cid, hard, gen.layout(rng, [("ref " + str(cid), ref)]), aln,
                                {"kind": "random", "nontrivial": amb, "rows": n, "width": w}))
         cid += 1
+    # (b') rows of very different lengths next to one another: 60 records over 120 columns, every third one differing from the
+    # reference in most columns (more than 64 SNPs), the others in one to three (a worker's row must not change while it waits
+    # for its turn in the writer); drawn from a PRNG of its own
+    import random
+    wr = random.Random(9090 + ctx.seed)
+    for _ in range(3 if ctx.tier == "quick" else 20):
+        hard = wr.random() < 0.5
+        ref = "".join(wr.choice("ACGT") for _ in range(120))
+        recs = []
+        for i in range(60):
+            sq = list(ref)
+            for j in (range(120) if i % 3 == 0 else wr.sample(range(120), wr.randint(1, 3))):
+                if i % 3 != 0 or wr.random() < 0.8:
+                    sq[j] = wr.choice([c for c in "ACGT" if c != ref[j]])
+            recs.append(("m%d" % i, "".join(sq)))
+        cases.append(make_case(cid, hard, gen.layout(wr, [("ref", ref)], "plain"), gen.layout(wr, recs, "plain"),
+                               {"kind": "long-and-short-rows", "nontrivial": True, "rows": 60, "width": 120}))
+        cid += 1
+    # (b'') many records that differ from one another only in WHICH any-base symbol they carry at a column (N, n, ?, -, and
+    # the ambiguity codes), against a reference with gaps and codes there, both gap modes: the symbol printed is the record's own
+    for hard in (False, True):
+        ref = list("".join(wr.choice("ACGT") for _ in range(30)))
+        cols = wr.sample(range(30), 6)
+        for j, sym in zip(cols, "--NRY?"):
+            ref[j] = sym
+        ref = "".join(ref)
+        recs = []
+        for i in range(80):
+            sq = list(ref)
+            for j in cols:
+                sq[j] = wr.choice("N?n-RYKMacgtACGT")
+            recs.append(("y%d" % i, "".join(sq)))
+        cases.append(make_case(cid, hard, gen.layout(wr, [("ref", ref)], "plain"), gen.layout(wr, recs, "plain"),
+                               {"kind": "any-base-symbols", "nontrivial": True, "rows": 80, "width": 30}))
+        cid += 1
     # (c) malformed stream
     n_bad = 30 if ctx.tier == "quick" else 300
     for _ in range(n_bad):
